@@ -165,7 +165,12 @@ impl std::fmt::Display for IntermediatePolynomial {
                 match f.precision() {
                     Some(p) => {
                         let formatted = format!("{:.*}", p, abs_coeff);
-                        let trimmed = formatted.trim_end_matches('0').trim_end_matches('.');
+                        // Only zeros of the fractional part are insignificant ("10" must stay "10")
+                        let trimmed = if formatted.contains('.') {
+                            formatted.trim_end_matches('0').trim_end_matches('.')
+                        } else {
+                            &formatted
+                        };
                         write!(f, "{}", trimmed)?
                     }
                     None => write!(f, "{}", abs_coeff)?,
@@ -179,7 +184,12 @@ impl std::fmt::Display for IntermediatePolynomial {
                     match f.precision() {
                         Some(p) => {
                             let formatted = format!("^{:.*}", p, exponent);
-                            let trimmed = formatted.trim_end_matches('0').trim_end_matches('.');
+                            // Only zeros of the fractional part are insignificant ("10" must stay "10")
+                            let trimmed = if formatted.contains('.') {
+                                formatted.trim_end_matches('0').trim_end_matches('.')
+                            } else {
+                                &formatted
+                            };
                             write!(f, "{}", trimmed)?
                         }
                         None => write!(f, "^{}", exponent)?,
